@@ -4,6 +4,3 @@ import "golang.org/x/tools/go/ssa"
 
 type ssaFunction = ssa.Function
 
-func cmdCheck(args []string)    {}
-func cmdSelftest(args []string) {}
-func cmdReplay(args []string)   {}
